@@ -33,6 +33,9 @@ Trusted mapping of primitives (section Variables of Src3m.v unless said otherwis
   parse_openssl_25519_privkey / _pubkey -> parse_privkey / parse_pubkey;  key_pair.public_as_pem().as_bytes() / .private_der -> kp_public_as_pem / kp_private_der
   .expect(..) / .unwrap() / panic! / assert!   -> Crash (site_<fn> k), k = ordinal of the site in the function
   io / Mlar errors -> Err EIo;  PrivateKeyProvidedButNotUsed -> Err EKey;  InvalidECCKeyFormat -> Err EInval
+  `info` (work package cmdsT2): ArchiveInfoReader::from_config -> info_from_config;  get_files_size -> ir_get_files_size;  .compressed_size -> ir_compressed_size;
+      header.format_version / header.config.encrypt / .multi_recipient.count_keys() -> hdr_format_version / hdr_encrypt / enc_count_keys;
+      println! of a u32 / usize `{}` -> fmt_dec, of a bool -> fmt_bool;  `a as f64 / b as f64` printed with `{:.2}` -> fmt_rate a b;  get_flag("verbose") -> arg_verbose
 FAILS CLOSED per item: anything not recognised -> `Definition <name>_untranslatable : unit := tt.`
 """
 import os
@@ -52,7 +55,8 @@ KT = {"bytes": "bytes", "names": "list bytes", "secrets": "list StaticSecret", "
       "tarhdr": "TarHeader", "file": "File", "afile": "ArchiveFile", "rng": "Rng", "optkeypair": "option KeyPair", "keypair": "KeyPair",
       "secret": "StaticSecret", "bool": "bool", "N": "N", "dest": "OutputTypes", "opath": "OPath", "ofile": "OPath", "ipath": "IPath",
       "kpath": "KPath", "cpath": "CPath", "cfile": "CFile", "kfile": "bytes", "header": "Header", "hkdf": "Hkdf", "unit": "unit",
-      "status": "Status", "dirent": "res CPath", "resline": "res CPath", "pat": "Pat"}
+      "status": "Status", "dirent": "res CPath", "resline": "res CPath", "pat": "Pat",
+      "infor": "InfoReader", "enccfg": "EncCfg"}
 MUT = {"bytes", "names", "secrets", "pubkeys", "rcfg", "wcfg", "mla", "aw", "fsr", "tar", "tarhdr", "file", "afile", "rng", "optkeypair", "secret"}
 LISTELEM = {"names": "bytes", "optnames": "bytes", "kpaths": "kpath", "cpaths": "cpath", "dirents": "dirent", "reslines": "resline"}
 VEC_KINDS = {"private_keys": "secrets", "public_keys": "pubkeys", "layers": "names", "buf": "bytes"}
@@ -67,7 +71,8 @@ CLAP = {("get_one::<PathBuf>.unwrap", "input"): ("arg_input", "ipath"), ("get_on
         ("contains_id", "layers"): ("(is_some arg_layers)", "bool"), ("contains_id", "compression_level"): ("(is_some arg_compression_level)", "bool"),
         ("get_flag", "allow_unauthenticated_data"): ("arg_allow_unauthenticated_data", "bool"), ("get_flag", "glob"): ("arg_glob", "bool"),
         ("get_count", "verbose"): ("arg_verbose_count", "N")}
-ITEM_CLAP = {"keyderive": {("get_one::<PathBuf>.unwrap", "input"): ("arg_key_input", "kpath")}}
+ITEM_CLAP = {"keyderive": {("get_one::<PathBuf>.unwrap", "input"): ("arg_key_input", "kpath")},
+             "info": {("get_flag", "verbose"): ("arg_verbose", "bool")}}
 OPTELEM = {"optkpaths": "kpaths", "optnames": "names", "optcpaths": "cpaths"}
 
 # translated functions: name -> (params [(name, kind, mut?)], result kind, result is Result<..>?)
@@ -207,7 +212,7 @@ class Tr:
             if u[1] in ("true", "false"):
                 return V(u[1], "bool")
             if u[1] == "None":
-                return V("None", "optkeypair")
+                return V("None", "optinfor" if self.item == "info" else "optkeypair")
             if u[1] == "OutputTypes::Stdout":
                 return V("Stdout", "dest")
             if u[1] == "DERIVE_PATH_SALT":
@@ -241,12 +246,24 @@ class Tr:
                     return V("(bytes_eqb %s %s)" % (a.text, b.text), "bool")
                 if op == "==" and a.kind in ("opath", "cpath") and b.text == blit("-"):
                     return V("(%s_is_dash %s)" % (a.kind, a.text), "bool")
+        if k == "bin" and u[1] == "/" and strip_paren(u[2])[0] == "cast" and strip_paren(u[3])[0] == "cast" \
+                and strip_paren(u[2])[2] == "f64" and strip_paren(u[3])[2] == "f64":
+            a, b = self.pe(strip_paren(u[2])[1], c), self.pe(strip_paren(u[3])[1], c)
+            if a.kind == "N" and b.kind == "N":
+                return V("(%s, %s)" % (a.text, b.text), "rate")
         if k == "field":
             b = self.pe(u[1], c) if norm(u[1]) in c.locals else None
             if b is not None and b.kind == "afile" and u[2] in ("filename", "size"):
                 return V("(af_%s %s)" % (u[2], b.text), "bytes" if u[2] == "filename" else "N")
             if b is not None and b.kind == "keypair" and u[2] == "private_der":
                 return V("(kp_private_der %s)" % b.text, "bytes")
+            if b is not None and b.kind == "header" and u[2] == "format_version":
+                return V("(hdr_format_version %s)" % b.text, "N")
+            if b is not None and b.kind == "infor" and u[2] == "compressed_size":
+                return V("(ir_compressed_size %s)" % b.text, "optN")
+            mm = re.fullmatch(r"(\w+)\.config\.encrypt", norm(u))
+            if mm and mm.group(1) in c.locals and c.locals[mm.group(1)].kind == "header":
+                return V("(hdr_encrypt %s)" % c.locals[mm.group(1)].text, "optenccfg")
         if k == "mcall":
             recv, m, args = strip_paren(u[1]), u[2], u[3]
             t = norm(u)
@@ -256,6 +273,9 @@ class Tr:
             mm = re.fullmatch(r"(\w+)\.config\.layers_enabled\.contains\((Layers::\w+)\)", t)
             if mm and mm.group(1) in c.locals and c.locals[mm.group(1)].kind == "header":
                 return V("(hdr_contains %s %s)" % (c.locals[mm.group(1)].text, mm.group(2).split("::")[1]), "bool")
+            mm = re.fullmatch(r"(\w+)\.multi_recipient\.count_keys\(\)", t)
+            if mm and mm.group(1) in c.locals and c.locals[mm.group(1)].kind == "enccfg":
+                return V("(enc_count_keys %s)" % c.locals[mm.group(1)].text, "N")
             if m == "is_layers_enabled" and len(args) == 1:
                 r = self.pe(recv, c)
                 if r.kind == "wcfg":
@@ -314,6 +334,8 @@ class Tr:
                     return V("(Some %s)" % a.text, "optkeypair")
                 if a.kind == "bytes":
                     return V("(Some %s)" % a.text, "optbytes")
+                if a.kind == "infor":
+                    return V("(Some %s)" % a.text, "optinfor")
             if fn == "Hkdf::new" and len(args) == 2:
                 a, b = self.pe(args[0], c), self.pe(args[1], c)
                 if a.kind == "optbytes" and b.kind == "bytes":
@@ -332,6 +354,15 @@ class Tr:
             return V(self.fmt(u[3], c, False), "bytes")
         raise ParseError("expression " + show(e)[:80])
 
+    def display(self, v):
+        if v.kind == "bytes":
+            return v.text
+        if v.kind == "N" and self.item == "info":
+            return "(fmt_dec %s)" % v.text
+        if v.kind == "bool" and self.item == "info":
+            return "(fmt_bool %s)" % v.text
+        raise ParseError("format argument of kind " + v.kind)
+
     def fmt(self, args, c, newline):
         s = strip_paren(args[0])
         if s[0] != "str" or "\\" in s[1]:
@@ -345,14 +376,15 @@ class Tr:
                 if not rest:
                     raise ParseError("format arguments")
                 v = self.pe(rest.pop(0), c)
-                if v.kind != "bytes":
-                    raise ParseError("format argument of kind " + v.kind)
-                out.append(v.text)
+                out.append(self.display(v))
             elif re.fullmatch(r"\{\w+\}", piece):
                 v = self.pe(("path", piece[1:-1]), c)
-                if v.kind != "bytes":
-                    raise ParseError("format argument of kind " + v.kind)
-                out.append(v.text)
+                out.append(self.display(v))
+            elif re.fullmatch(r"\{\w+:\.2\}", piece):
+                v = self.pe(("path", piece[1:-4]), c)
+                if v.kind != "rate":
+                    raise ParseError("{:.2} of a " + v.kind)
+                out.append("(fmt_rate (fst %s) (snd %s))" % (v.text, v.text))
             else:
                 raise ParseError("format spec " + piece)
         if rest:
@@ -395,6 +427,10 @@ class Tr:
                 if a.kind == "file" and b.kind == "rcfg":
                     return "%s %s %s" % ("reader_from_config" if fn.startswith("ArchiveReader") else "failsafe_from_config", a.text, b.text), [], \
                         "mla" if fn.startswith("ArchiveReader") else "fsr"
+            if fn == "ArchiveInfoReader::from_config" and len(args) == 2:
+                a, b = self.pe(args[0], c), self.pe(args[1], c)
+                if a.kind == "file" and b.kind == "rcfg":
+                    return "info_from_config %s %s" % (a.text, b.text), [], "infor"
             if fn == "ArchiveWriter::from_config" and len(args) == 2:
                 a, b = self.pe(args[0], c), self.pe(args[1], c)
                 if a.kind == "dest" and b.kind == "wcfg":
@@ -488,6 +524,8 @@ class Tr:
                 a = self.pe(args[0], c)
                 if a.kind == "N":
                     return "wc_with_compression_level %s %s" % (c.locals[rl].text, a.text), [rl], "unit"
+            if m == "get_files_size" and not args and rk == "infor":
+                return "ir_get_files_size %s" % c.locals[rl].text, [], "N"
             if m == "metadata" and not args and rk == "cfile":
                 return "cfile_metadata %s" % c.locals[rl].text, [], "meta"
         if x[0] == "path" and x[1] in c.locals and c.locals[x[1]].kind in ("dirent", "resline"):
@@ -615,7 +653,7 @@ class Tr:
         return self.bind(inner, c, ("crash", site), k)
 
     def opt_unwrap(self, ov, c, site, k):
-        inner_kind = {"optafile": "afile", "optbytes": "bytes", "optkeypair": "keypair", "optN": "N"}.get(ov.kind) or OPTELEM.get(ov.kind)
+        inner_kind = {"optafile": "afile", "optbytes": "bytes", "optkeypair": "keypair", "optN": "N", "optinfor": "infor", "optenccfg": "enccfg"}.get(ov.kind) or OPTELEM.get(ov.kind)
         if inner_kind is None:
             raise ParseError("unwrap of a " + ov.kind)
         g = self.fresh("x")
@@ -1164,6 +1202,18 @@ Section CmdSrc.
   Variable cpath_is_dash : CPath -> bool.
   Variable stdin_lines : list (res CPath).
   Variable fuel : nat.                                  (* depth bound of the directory walk *)
+  (* `info` *)
+  Variable arg_verbose : bool.                          (* info -v: a flag *)
+  Variables InfoReader EncCfg : Type.
+  Variable hdr_format_version : Header -> N.
+  Variable hdr_encrypt : Header -> option EncCfg.
+  Variable enc_count_keys : EncCfg -> N.
+  Variable info_from_config : File -> ReaderConfig -> res InfoReader.
+  Variable ir_get_files_size : InfoReader -> res N.
+  Variable ir_compressed_size : InfoReader -> option N.
+  Variable fmt_dec : N -> bytes.                        (* Display of an unsigned integer *)
+  Variable fmt_bool : bool -> bytes.                    (* Display of a bool *)
+  Variable fmt_rate : N -> N -> bytes.                  (* format!("{:.2}", a as f64 / b as f64) *)
 """
 
 ITEMS = [
@@ -1192,6 +1242,7 @@ ITEMS = [
     ("keygen", "fnkeygen(matches:&ArgMatches)->Result<(),MlarError>", [], "unit", True),
     ("apply_derive", "fnapply_derive(path:&str,mutsrc:StaticSecret)->[u8;32]", [("path", "bytes", False), ("src", "secret", False)], "bytes", False),
     ("keyderive", "fnkeyderive(matches:&ArgMatches)->Result<(),MlarError>", [], "unit", True),
+    ("info", "fninfo(matches:&ArgMatches)->Result<(),MlarError>", [], "unit", True),
 ]
 RESKIND = {"unit": "unit", "secret": "StaticSecret", "pubkey": "PublicKey"}
 
